@@ -32,6 +32,9 @@ class Mutant:
     why: str = ''
     count: int = 1               # number of occurrences of `old` expected (all replaced)
     nth: Optional[int] = None    # replace only the n-th occurrence (0-based) when set
+    expect: str = 'fire'         # 'fire': the rule must report the edit; 'silent': the edit repairs a listed
+                                 # finding and the rule must stop reporting it (guards against a rule that
+                                 # would keep firing on correct code)
 
 
 @dataclass
@@ -96,6 +99,13 @@ def _run_one(args):
     res = core.run_rules(repo, mod.RULES, prop, 'quick')
     known = core.load_known()
     fired = sorted({i.rule for i in res.instances if not i.ok and core.match_known(i, known) is None})
+    if m.expect == 'silent':
+        still = sorted({i.rule for i in res.instances if not i.ok})
+        if res.errors:
+            return (m.id, 'error_only', '; '.join(e.splitlines()[0] for e in res.errors)[:300], [])
+        if m.rule in still:
+            return (m.id, 'missed', f'{m.rule} still fires on the repaired code (false alarm)', still)
+        return (m.id, 'repaired', m.rule, still)
     # what fires on the unmutated tree is not credited to the mutant
     if m.rule in fired:
         return (m.id, 'detected', m.rule, fired)
@@ -129,7 +139,9 @@ def run_for(prop: str, root: str | None = None, jobs: int = 16) -> SelfTestResul
         rec = {'mutant': mid, 'file': m.file, 'edit': f'{m.old!r} -> {m.new!r}'[:200], 'expected_rule': m.rule,
                'status': status, 'info': info}
         out.records.append(rec)
-        if status == 'detected' and m.rule not in base_fired:
+        if status == 'repaired':
+            out.detected += 1
+        elif status == 'detected' and m.rule not in base_fired:
             out.detected += 1
         elif status == 'detected':
             out.missed.append(mid)
